@@ -1,6 +1,7 @@
 """C09 - date-time and time values mean the instant the OFX notation denotes."""
 import datetime
 from ofxtools import Types, utils
+from sx import rt
 
 PID = "C09"
 US = 1000000
@@ -110,6 +111,36 @@ def assume_valid(ctx, kind, F, off, offmin):
 
 
 # ---------------------------------------------------------------- reading
+def set_local_zone(tz):
+    """the process-local time zone (TZ variable) the application happens to run in; None restores the sandbox's own"""
+    import os, time
+    if tz is None:
+        os.environ.pop("TZ", None)
+    else:
+        os.environ["TZ"] = tz
+    time.tzset()
+
+
+rt.NATIVE_FUNCS.add(set_local_zone)
+
+
+def h_read_localzone(ctx, kind, has_time, has_ms, off, tz):
+    """reading means the same instant whatever the process-local time zone is"""
+    set_local_zone(tz)
+    try:
+        h_read(ctx, kind, has_time, has_ms, off)
+    finally:
+        set_local_zone(None)
+
+
+def h_write_localzone(ctx, kind, named, tz):
+    set_local_zone(tz)
+    try:
+        h_write(ctx, kind, named)
+    finally:
+        set_local_zone(None)
+
+
 def h_read(ctx, kind, has_time, has_ms, off):
     text, F, offmin, lay = build_text(ctx, kind, has_time, has_ms, off)
     assume_valid(ctx, kind, F, off, offmin)
@@ -423,7 +454,7 @@ def h_gmt_offset(ctx):
     ctx.check("gmt_offset(hours, minutes) is sign(hours) * (|hours|:minutes)", td // datetime.timedelta(minutes=1) == want)
 
 
-HARNESSES = dict(write_season=h_write_season, read=h_read, reject_range=h_reject_range, reject_edit=h_reject_edit, write=h_write,
+HARNESSES = dict(read_localzone=h_read_localzone, write_localzone=h_write_localzone, write_season=h_write_season, read=h_read, reject_range=h_reject_range, reject_edit=h_reject_edit, write=h_write,
                  write_naive=h_write_naive, roundtrip=h_roundtrip, gmt_offset=h_gmt_offset)
 
 META = dict(
@@ -516,6 +547,12 @@ def instances(tier, seed):
         mk(f"write_naive:{kind}:tzinfo without offset", "write_naive", dict(kind=kind, zone="nooffset"))
         if tier != "quick":
             mk(f"roundtrip:{kind}", "roundtrip", dict(kind=kind, named=None), timeout_ms=60000, wall_s=1200)
+    # the process-local time zone (TZ) is ambient state the result must not depend on
+    for tzname in (("EST+5", "IST-5:30") if tier == "quick" else ("EST+5", "IST-5:30", "NZST-12", "Europe/London", "America/St_Johns")):
+        for kind in ("dt", "time"):
+            mk(f"read_localzone[{tzname}]:{kind}+T", "read_localzone", dict(kind=kind, has_time=True, has_ms=False, off=None, tz=tzname))
+            mk(f"read_localzone[{tzname}]:{kind}+T.ms[-hh.mm]", "read_localzone", dict(kind=kind, has_time=True, has_ms=True, off=["-", 2, True, None], tz=tzname))
+            mk(f"write_localzone[{tzname}]:{kind}", "write_localzone", dict(kind=kind, named=None, tz=tzname), timeout_ms=30000)
     mk("write_naive:time:zone without offset for bare times", "write_naive", dict(kind="time", zone="zonelike"))
     mk("gmt_offset", "gmt_offset", {})
     mk("write_season", "write_season", {}, timeout_ms=30000)
